@@ -33,6 +33,12 @@ def text_states(tier):
     reg = registry()
     maxlen = 3 if tier == 'quick' else 4
     seen = set()
+    # names with a role elsewhere in the same file: a struct whose array is sized by n0 / n1, then structs in which
+    # n0 / n1 are ordinary members (they come first so that no batch boundary separates them)
+    for seq in ((('ext', 'u16', 'u8'), ('plain', 'u8')), (('named', 'u8', 'n0'), ('dynamic', 'bytes')),
+                (('plain', 'u8'), ('ext', 'bytes', 'u8')), (('named', 'u16', 'n1'), ('named', 'u8', 'n0')),
+                (('plain', 'TN'), ('named', 'i64', 'n1'))):
+        yield U.mk_state('struct', seq, reg)
     for n in range(1, maxlen + 1):
         for seq in itertools.permutations(POOL, n):
             # every state must contain a bytes member or a nested one, else it says nothing about order effects
